@@ -12,7 +12,7 @@ use simcore::Rng;
 use simcore::driver::CaseReport;
 
 use crate::observe::{self, ObserveOpts};
-use crate::ws::{Cfg, FileSpec, VARIANTS, emmyrc_for, file_text, gen_workspace};
+use crate::ws::{Cfg, FileSpec, VARIANTS, emmyrc_for, gen_workspace};
 
 #[derive(Serialize, Deserialize, Clone, Debug, PartialEq)]
 pub enum Op {
@@ -74,7 +74,7 @@ impl World {
     }
 
     pub fn text(&self, f: usize, v: u32) -> String {
-        file_text(&self.files[f].kind, self.files[f].n, v)
+        crate::ws::text_of(&self.files[f], v)
     }
 
     pub fn load(&mut self, items: &[(usize, u32)], batch: bool) {
@@ -243,7 +243,14 @@ fn gen_cfg_change(r: &mut Rng) -> Op {
 
 pub fn generate(prop: &str, seed: u64) -> HistSpec {
     let mut r = Rng::stream(seed, "workload");
-    let files = gen_workspace(&mut r, 2, 7);
+    let mut files = gen_workspace(&mut r, 2, 7);
+    // a third of the workspaces leave the beaten track of the templates
+    {
+        let mut mr = Rng::stream(seed, "mutations");
+        if mr.chance(1, 3) {
+            crate::ws::mutate_workspace(&mut mr, &mut files);
+        }
+    }
     let init: Vec<u32> = files.iter().map(|_| *r.pick(&[0, 0, 0, 1, 2])).collect();
     let cfg = gen_cfg(&mut r);
     let nf = files.len();
@@ -486,7 +493,29 @@ pub fn judge_once(prop: &str, spec: &HistSpec) -> Judged {
                 d.str(&digest_lines(&o.lines));
                 let df = observe::diff(&o.lines, &o0.lines);
                 if !df.is_empty() {
-                    for (cl, det) in class_of_diff("C08", "changed", &df, &o0.lines, edited.as_deref()) {
+                    let mutated = spec.files.iter().any(|f| !f.muts.is_empty());
+                    let mut found = class_of_diff("C08", "changed", &df, &o0.lines, edited.as_deref());
+                    if mutated && found.iter().any(|(cl, _)| cl.ends_with(":other")) {
+                        // Mutated workspaces produce endless variants of one recorded limitation:
+                        // files that depend on a re-submitted file are not re-analysed, so facts
+                        // they derived from it (a class bound to a required table, a local typed
+                        // from another file's global) go stale until they are analysed again.
+                        // Mechanical test: re-submit every live file once more, unchanged, in one
+                        // batch (which analyses them in dependency order). If that alone restores the consistent observation, the difference
+                        // was such a stale dependent (one umbrella class); if it does not, indexed
+                        // state is corrupted for good and the specific classes are reported.
+                        let live: Vec<(usize, u32)> = w.cur.iter().enumerate().filter_map(|(f, v)| v.map(|v| (f, v))).collect();
+                        w.load(&live, true);
+                        let o2 = w.observe();
+                        if observe::diff(&o2.lines, &o0.lines).is_empty() {
+                            c("probe.mutated_workspace_stale_dependents");
+                            let cats: Vec<String> = found.iter().filter(|(cl, _)| cl.ends_with(":other")).map(|(cl, _)| cl.split(':').nth(2).unwrap_or("").to_string()).collect();
+                            let det = found.iter().find(|(cl, _)| cl.ends_with(":other")).map(|x| x.1.clone()).unwrap_or_default();
+                            found.retain(|(cl, _)| !cl.ends_with(":other"));
+                            found.push(("C08:changed:stale-dependents:mutated-workspace".to_string(), format!("categories {cats:?}; restored by re-submitting every file once; {det}")));
+                        }
+                    }
+                    for (cl, det) in found {
                         classes.push((cl, format!("after step {i} ({op:?}): {det}")));
                     }
                 }
@@ -671,7 +700,7 @@ pub fn run(prop: &str, spec_v: &Value, verbose: bool) -> CaseReport {
     if verbose {
         println!("spec: {}", serde_json::to_string_pretty(&spec).unwrap_or_default());
         for (i, f) in spec.files.iter().enumerate() {
-            println!("--- file {i} {} (variant {})\n{}", f.rel, spec.init[i], file_text(&f.kind, f.n, spec.init[i]));
+            println!("--- file {i} {} (variant {})\n{}", f.rel, spec.init[i], crate::ws::text_of(f, spec.init[i]));
         }
     }
     CaseReport {
